@@ -365,6 +365,32 @@ func genC20(t *rapid.T) c20Case {
 		}
 		cs.Updates = append(cs.Updates, u)
 	}
+	// in two thirds of the cases some neighbours announce a route towards the destination (directly or
+	// through one more node), so that the positive side of the forwarding clause is exercised
+	if k > 0 && rapid.IntRange(0, 2).Draw(t, "routes") > 0 {
+		nr := rapid.IntRange(1, 2).Draw(t, "nroutes")
+		for r := 0; r < nr; r++ {
+			nb := cs.Neighbors[rapid.IntRange(0, k-1).Draw(t, "routenb")]
+			lost := func() uint64 {
+				if rapid.IntRange(0, 2).Draw(t, "routelost") == 0 {
+					return rapid.SampledFrom([]uint64{1, 3, 10, 500, 1000, 90000}).Draw(t, "routelostago")
+				}
+				return 0
+			}
+			var ups []c20Update
+			if n >= 3 && rapid.Bool().Draw(t, "viamid") {
+				mid := rapid.IntRange(1, n).Draw(t, "mid")
+				ups = append(ups, c20Update{Origin: nb, Age: 1, Links: []c20Link{{To: mid, Lost: lost()}}})
+				ups = append(ups, c20Update{Origin: mid, Age: 2, Links: []c20Link{{To: cs.Dest, Lost: lost()}}})
+			} else {
+				ups = append(ups, c20Update{Origin: nb, Age: 1, Links: []c20Link{{To: cs.Dest, Lost: lost()}}})
+			}
+			for _, up := range ups {
+				pos := rapid.IntRange(0, len(cs.Updates)).Draw(t, "routepos")
+				cs.Updates = append(cs.Updates[:pos], append([]c20Update{up}, cs.Updates[pos:]...)...)
+			}
+		}
+	}
 	return cs
 }
 
